@@ -1066,6 +1066,17 @@ func (cacheStream) Execute(c Case) {
 					_ = os.WriteFile(probe, []byte(`{"cdiVersion":"0.6.0","kind":"snapshot-probe.com/x","devices":[{"name":"p","containerEdits":{"env":["P=1"]}}]}`), 0o644)
 					_, _ = cache.InjectDevices(mk(), mixed...)
 					_, _ = cache.InjectDevices(mk(), "snapshot-probe.com/x=p")
+					// names with a conventional ring to them that no Spec defines (all, *, 0, none) are misses like any other
+					if ls := cache.ListDevices(); len(ls) > 0 {
+						kind := ls[0][:strings.Index(ls[0], "=")]
+						for _, nm := range []string{"all", "*", "0", "none", "ALL"} {
+							if cache.GetDevice(kind+"="+nm) == nil {
+								if u, e := cache.InjectDevices(mk(), kind+"="+nm); e == nil || len(u) != 1 {
+									aux = append(aux, fmt.Sprintf("a request for %s=%s, which no Spec defines, is not refused as unresolvable", kind, nm))
+								}
+							}
+						}
+					}
 					if img := fmt.Sprint(cache.ListDevices(), cache.ListVendors(), cache.ListClasses()); img != imgBefore {
 						aux = append(aux, "a failing injection made a manually refreshed cache reload its directories: "+imgBefore+" -> "+img)
 					}
